@@ -62,6 +62,7 @@ Obs == [sent |-> obs.sent, pend |-> [i \in I |-> IF env.spend[i] THEN <<Val(i)>>
 JoinPerInputInv == P!JoinPerInput(cfg, Obs)
 JoinNothingInventedInv == P!JoinNothingInvented(cfg, Obs)
 JoinCompleteInv == P!JoinComplete(cfg, Obs)
+JoinNoStallInv == P!JoinNoStall(cfg, Obs)
 Settle1Inv == P!Settle1(cfg, Obs)
 Settle2Inv == P!Settle2(cfg, Obs)
 \* liveness under weak fairness of the library's steps: cancelled and every input closed (no sender waiting) leads to
